@@ -58,6 +58,12 @@ Definition reg_save_stores (f : fin) : list (Z * Z) :=   (* (hard reg 7,6,2,1,8,
      (16, o + 48); (17, o + 64); (18, o + 80); (19, o + 96); (20, o + 112); (21, o + 128); (22, o + 144); (23, o + 160)]
   else [].
 
+(* round 3 (wave v): the same arithmetic with the rounding of the block applied to non-leaf functions only
+   ("sp alignment matters only at calls"); refuted in FrameProofs.v -- a leaf function may execute alloca *)
+Definition block_size_lf (leaf : bool) (f : fin) : Z :=
+  let b := stack_slots_size f + saved_hard_regs_size f in if leaf then b else (b + 15) / 16 * 16.
+Definition sp_after_lf (leaf : bool) (f : fin) (E : Z) : Z := E - (block_size_lf leaf f + service_area_size f).
+
 (* absolute addresses, E = rsp at function entry (the return address is at [E]) *)
 Definition sp_after (f : fin) (E : Z) : Z := E - sub_sp f.
 Definition bp_of (E : Z) : Z := E - 8.             (* "-8(sp) = bp; bp = sp - 8" *)
